@@ -2,10 +2,12 @@
 from .common import pipeline_for, combined
 
 LEVEL = 'other'
-RULES = ('S-OWN', 'M1', 'R03.a', 'R03.b', 'R03.d', 'R03.e', 'R04.d', 'R01.b', 'R02.d', 'R03.c', 'R14.t', 'R01.c', 'R10.s', 'R10.d', 'R01.k')
+RULES = ('S-OWN', 'M1', 'R03.a', 'R03.b', 'R03.d', 'R03.e', 'R04.d', 'R01.b', 'R02.d', 'R03.c', 'R14.t', 'R01.c', 'R10.s', 'R10.d', 'R01.k', 'R04.n', 'R02.r')
 
 
 def run(prog, rec, tier):
+    from . import static_rules as _sr
+    _sr.assert_conditions(prog, rec, 'R04.n', 'R04.n@kernel::assert-conditions-have-no-effects', ('kernel', 'main.cpp', 'valget'))
     combined(prog, rec, tier, RULES, driver=('layout', 'reader', 'sequence'), pipe=True, monitor=True, spawn=True, modes=('isolation', 'steps'),
                  explanation='Ownership typestate of every chunk buffer as the abstract value of the token field, per role, '
                  'closed under an inferred rely/guarantee pair; exactly-once flow of entries to the cipher step; '
